@@ -160,6 +160,22 @@ TensorContract(mem, r, a, prefix) ==
 TTSV1(mem, n, r, a) == [i \in 1..n |-> TensorContract(mem, r, a, <<i - 1>>)]
 TTSV2(mem, n, r, a) == [i \in 1..n |-> [j \in 1..n |-> TensorContract(mem, r, a, <<i - 1, j - 1>>)]]
 
+\* hist(vals, bins, bin_edges, density) / stat.ashist(...) with linear binning, for integer values d:
+\* an integer number of bins b splits [min, max] evenly (a statistic with one distinct value gets one
+\* bin), a list gives the edges; a bin holds lo <= v < hi, the last one also v = hi
+RLeq(a, b) == a[1] * b[2] <= b[1] * a[2]
+RLess(a, b) == a[1] * b[2] < b[1] * a[2]
+HistEdgesInt(d, b) == LET lo == MinOf(Range(d))  hi == MaxOf(Range(d))
+                      IN [k \in 1..(b + 1) |-> Rat(lo * b + (hi - lo) * (k - 1), b)]
+HistCounts(d, E) ==
+  [k \in 1..(Len(E) - 1) |->
+     Cardinality({j \in DOMAIN d : RLeq(E[k], <<d[j], 1>>)
+                    /\ (RLess(<<d[j], 1>>, E[k + 1]) \/ (k = Len(E) - 1 /\ REq(<<d[j], 1>>, E[k + 1])))})]
+HistCenters(E) == [k \in 1..(Len(E) - 1) |-> RDiv(RAdd(E[k], E[k + 1]), <<2, 1>>)]
+\* density: count / (number of counted values * bin width)
+HistDensity(d, E) == LET c == HistCounts(d, E)  tot == SumSeq(c)
+                     IN [k \in DOMAIN c |-> RDiv(<<c[k], 1>>, RMul(<<tot, 1>>, RAdd(E[k + 1], <<-E[k][1], E[k][2]>>)))]
+
 \* views restricted to a bunch, and their set algebra: always the network's ids, in the network's
 \* order, restricted to the resulting set; a bunch naming an unknown id is refused
 ViewIds(all, B) == Only(all, B)
